@@ -94,9 +94,9 @@ func zipContains(raw, sig []byte, msoCheck bool) bool {
 	}
 
 	for i := 0; i < 4; i++ {
-		if !b.advance(0x1A) {
-			return false
-		}
+		// b is at the file name of the current entry. The next local file header
+		// can be less than 26 bytes away (short name, no content), so search
+		// from here instead of hopping over it.
 		nextHeader = bytes.Index(b, pk)
 		if nextHeader == -1 {
 			return false
